@@ -564,6 +564,30 @@ def gen_op(rng, w, pbad, force_create=False):
 
 # ---------------------------------------------------------------- running a history on the real code
 
+def logical_db(w, pks):
+    """the committed database read back in a fresh session, object by object in creation order, with references given as creation
+    indexes: independent of the values the database chose for auto primary keys (their order follows the flush order)"""
+    key = {}
+    for i, (o, pk) in enumerate(zip(w.objs, pks)):
+        if pk is not None: key[(type(o), pk)] = i
+    out = []
+    with db_session:
+        for i, (o, pk) in enumerate(zip(w.objs, pks)):
+            cls = type(o)
+            x = cls.get(id=pk) if pk is not None else None
+            if x is None: out.append(None); continue
+            row = {}
+            for a in w.ent_attrs[w.classes.index(cls)]:
+                at = w.attr[a]
+                v = getattr(x, at.name)
+                if at.is_collection: row[a] = sorted(key.get((type(y), y.id), -1) for y in v)
+                elif isinstance(v, core.Entity): row[a] = ['obj', key.get((type(v), v.id), -1)]
+                else: row[a] = v
+            out.append(row)
+        counts = {c.__name__: len(c.select()[:]) for c in w.classes}
+    return {'objects': out, 'rows': counts}
+
+
 def dump_db(w):
     out = {}
     con = w.db.get_connection()
@@ -598,12 +622,14 @@ def run_real(spec, ops, want_db=False, stop_on_change=True):
         if want_db and changed is None and not (steps and steps[-1][0] is not None and ops[len(steps) - 1]['k'] == 'flush'):
             try:
                 commit()
-                db = dump_db(w)
+                pks = [o._pkval_ if o._status_ not in ('deleted', 'cancelled') else None for o in w.objs]
+                db = True
             except Exception as e:
                 db = 'commit failed: ' + type(e).__name__
                 rollback()
         else:
             rollback()
+    if db is True: db = logical_db(w, pks)
     w.db.disconnect()
     return {'steps': steps, 'changed': changed, 'db': db, 'w': w}
 
@@ -716,9 +742,11 @@ def oracle_phase(ctx, rng, nhist, nops):
             if violated or flush_failed: rollback()
             else:
                 try:
-                    commit(); final_db = dump_db(w)
+                    commit(); final_pks = [o._pkval_ if o._status_ not in ('deleted', 'cancelled') else None for o in w.objs]
                 except Exception as e:
+                    final_pks = None
                     ctx.count('commit-failed:' + type(e).__name__); rollback()
+        if not (violated or flush_failed) and final_pks is not None: final_db = logical_db(w, final_pks)
         w.db.disconnect()
         if violated: continue
         if final_db is not None and any(e is not None for e, _ in real):
@@ -733,10 +761,11 @@ def oracle_phase(ctx, rng, nhist, nops):
                     ctx.count('commit-compare:replay-did-not-reproduce-the-successful-calls')
                 elif r2['db'] != final_db:
                     ctx.count('oracle:commit-differs')
-                    tabs = sorted(t for t in final_db if not isinstance(r2['db'], dict) or final_db[t] != r2['db'].get(t))
+                    if not isinstance(r2['db'], dict): bad = ['commit']
+                    else: bad = ['rows'] * (r2['db']['rows'] != final_db['rows']) + ['object %d' % i for i, (x, y) in enumerate(zip(final_db['objects'], r2['db']['objects'])) if x != y]
                     ctx.violation('after commit the database differs from a replay of only the successful calls',
-                                  {'schema': spec, 'ops': ops}, observed={'tables': tabs, 'db': {t: final_db[t] for t in tabs}},
-                                  expected={'db': r2['db'] if not isinstance(r2['db'], dict) else {t: r2['db'].get(t) for t in tabs}}, key='commit-differs:' + '+'.join(tabs))
+                                  {'schema': spec, 'ops': ops}, observed={'differs': bad[:6], 'db': final_db},
+                                  expected={'db': r2['db']}, key='commit-differs:' + ('rows' if 'rows' in bad else 'objects' if bad != ['commit'] else 'commit'))
             except Exception as e:
                 ctx.count('commit-compare-replay-crashed:' + type(e).__name__)
         if len(real) == len(ops): batch.append((spec, w, ops, real))
@@ -791,9 +820,11 @@ LOOSE_ERR = {'RecursionError'}
 
 
 def real_outcome_can_be(spec, ops, want):
-    """re-executes the history on fresh real classes (up to 6 times; object addresses, hence set orders, differ between executions):
+    """re-executes the history on fresh real classes (up to 30 times; object addresses, hence set orders, differ between executions):
     does the real code ever give the outcome `want` for the last call?"""
-    for _ in range(6):
+    junk = []
+    for attempt in range(30):
+        junk.append([object() for _ in range((attempt * 37) % 101 + 1)])     # shifts the addresses (hence the hashes) of the next objects
         try:
             r = run_real(spec, [dict(o) for o in ops], stop_on_change=False)
         except Exception:
@@ -842,7 +873,8 @@ def tie_phase(ctx, batch):
             merr = m['err']
             if merr in ('NoSuchObject', 'NoSuchAttr'):
                 ctx.divergence('model rejected a call the engine generated', hist, model=merr, impl=err); break
-            multi = ops[i]['k'] in ('delete', 'setm', 'create') or len(ops[i].get('items', [])) > 1 or len((ops[i].get('v') or {}).get('coll', [])) > 1
+            # calls that walk over several objects (cascades, item lists): their failure point depends on Python's set iteration order
+            multi = ops[i]['k'] in ('delete', 'setm', 'create', 'clear', 'remove') or len(ops[i].get('items', [])) > 1 or 'coll' in (ops[i].get('v') or {})
             prev_snap = real[i - 1][1] if i else None
             if err in ('AssertionError', 'UnrepeatableReadError') and merr != err and prev_snap is not None and \
                     (dangling(prev_snap) or prev_snap.get('dangling') or prev_snap.get('tainted')):
